@@ -186,6 +186,16 @@ static void case_A(uint64_t id)
                                         biotype == ALN_BIOTYPE_DNA ? "nucleotide" : "protein");
                         }
                         kalign_free_msa(m);
+                        {
+                                /* the array entry point must reject it as well */
+                                char** rows = NULL;
+                                int alen = 0;
+                                if(kx_kalign_arr(&in, 1, type, -1, -1, -1, &rows, &alen) == OK){
+                                        vh_fail("sem:type-kind-mismatch-accepted.kalign", "kalign() accepts type=%s for %s sequences", kx_type_name(type),
+                                                biotype == ALN_BIOTYPE_DNA ? "nucleotide" : "protein");
+                                        kx_free_rows(rows, in.n);
+                                }
+                        }
                         kx_set_free(&in);
                 }
                 vh_count("rejections_checked");
@@ -220,6 +230,26 @@ static void case_A(uint64_t id)
                                 vh_fail("sem:kind-misdetected", "probe input detected as kind %d", OBS->biotype);
                         }
                         judge_override("kalign_run", biotype, type, subset, v, base, OBS->gpo, OBS->gpe, OBS->tgpe, same_matrix(base->subm, OBS->subm));
+                }
+                /* the array entry point kalign() must use the same parameters: same alignment as kalign_run with them */
+                if(OBS->seen == 1){
+                        char** rows = NULL;
+                        int alen = 0, k;
+                        memset(OBS, 0, sizeof *OBS);
+                        if(kx_kalign_arr(&in, 1, type, (subset & 1) ? v[0] : -1.0f, (subset & 2) ? v[1] : -1.0f, (subset & 4) ? v[2] : -1.0f, &rows, &alen) != OK){
+                                vh_fail("sem:run-failed.kalign", "kalign() failed where kalign_run succeeds");
+                        }else{
+                                if(OBS->seen == 1){
+                                        judge_override("kalign()", biotype, type, subset, v, base, OBS->gpo, OBS->gpe, OBS->tgpe, same_matrix(base->subm, OBS->subm));
+                                }
+                                for(k = 0; k < in.n; k++){
+                                        if(strcmp(rows[k], m->sequences[k]->seq) != 0){
+                                                vh_fail("sem:kalign-differs-from-kalign_run", "type=%s %s: kalign() and kalign_run give different alignments", kx_type_name(type), subset_name(subset));
+                                                break;
+                                        }
+                                }
+                                kx_free_rows(rows, in.n);
+                        }
                 }
                 kalign_verif_hook = NULL;
                 kalign_free_msa(m);
